@@ -5,8 +5,9 @@
    are over PyAst / IR.  Definitions only.
 
    Boundaries (explicit inputs, recorded by the harness from the very call being compared):
-   - tds : what the call to  to_docstring  returned (text) and the IR it left behind (it mutates the
-           parameter dicts), or the exception it raised;
+   - tds : what the call to  to_docstring  returned (text), or the exception it raised.  to_docstring works on
+           copies of the parameter dicts: it leaves the IR it is given as it found it, so the emitters read
+           the IR they were handed (the correspondence check compares the caller's IR after every call);
    - ds  : what the call to  emit.docstring  returned inside argparse_function;
    - pt  : the parse table: for finitely many source strings, what  ast.parse(s).body[0].value  is
            (Some e), or that it is a SyntaxError (None).  Strings inside TyExpr's fragment are parsed by
@@ -199,7 +200,13 @@ Definition get_value_expr (e : expr) : outcome pyobj :=
       | VBool b => Ok (OV (VInt (if b then 1 else 0)%Z))
       | _ => Err TypeError
       end
-    else if str_eqb op (L "Not") then Err KeyError      (* the table has "not_", not "Not" *)
+    else if str_eqb op (L "Not") then Ok (OV (VBool (negb (truthy v))))
+    else if str_eqb op (L "Invert") then
+      match v with
+      | VInt z => Ok (OV (VInt (- z - 1)))
+      | VBool b => Ok (OV (VInt (if b then (-2) else (-1))%Z))
+      | _ => Err TypeError
+      end
     else Err Unmodelled
   | EName id => Ok (OV (VStr id))
   | EOpaque s => if opaque_is_lambda s then Ok (ONode e) else Err Unmodelled    (* .value attribute? *)
@@ -587,9 +594,10 @@ Definition argparser : expr := EName (L "argument_parser").
 Definition kw (k : String.string) (v : expr) : option str * expr := (Some (L k), v).
 Arguments kw k%string_scope v.
 
-(* ast_utils.param2argparse_param: the Expr statement and the param dict as left behind *)
+(* ast_utils.param2argparse_param: the Expr statement.  It works on a copy of the param dict
+   (`_param = dict(_param)`): setdefault("typ", "Any") / setdefault("doc", "") stay private to the call *)
 Definition param2argparse_param (pt : ptable) (word_wrap emit_default_doc : bool) (name : str) (g : gparam)
-  : outcome (stmt * gparam) :=
+  : outcome stmt :=
   let required0 := match g_default g with
                    | None | Some (DV VNone) => false
                    | Some _ => true
@@ -642,7 +650,7 @@ Definition param2argparse_param (pt : ptable) (word_wrap emit_default_doc : bool
       ++ help
       ++ (if required2 then [kw "required" (set_value (VBool true))] else [])
       ++ dkw in
-  Ok (SExpr (ECall (EAttr argparser (L "add_argument")) [set_value (VStr (L "--" ++ name))] kws), g3).
+  Ok (SExpr (ECall (EAttr argparser (L "add_argument")) [set_value (VStr (L "--" ++ name))] kws)).
 
 (* ------------------------------------------------------------------ param2ast / _generic_param2ast *)
 Definition ann_assign (name : str) (ann value : expr) : stmt :=
@@ -923,9 +931,9 @@ Definition gparam_nonempty (p : gparam) : bool :=
 
 (* emit.class_(ir, emit_call, class_name, class_bases, decorator_list, word_wrap=..., emit_default_doc=...)
    tds: outcome of to_docstring(class_fold_returns ir (body rewritten), indent_level=1, emit_separating_tab=True,
-   emit_types=False, ...) with the IR it left behind.  The caller's IR is not touched (deepcopy). *)
+   emit_types=False, ...).  The caller's IR is not touched (deepcopy). *)
 Definition emit_class (pt : ptable) (i : ir) (emit_call : bool) (class_name : str) (bases decos : list str)
-           (word_wrap : bool) (tds : outcome (str * ir)) : outcome (stmt * ir) :=
+           (word_wrap : bool) (tds : outcome str) : outcome (stmt * ir) :=
   let has_returns := match ir_returns i with Has _ => true | _ => false end in
   let param_names := od_keys (ir_params i) in
   let body0 := match ir_internal i with Some it => in_body it | None => [] end in
@@ -935,8 +943,8 @@ Definition emit_class (pt : ptable) (i : ir) (emit_call : bool) (class_name : st
            | _, _ :: _ => do b <- rewrite_body param_names body0; Ok (Some b)
            | _, [] => Ok (if has_returns then None else Some [])
            end;
-  do r <- tds;
-  let '(text, i2) := r in
+  do text <- tds;
+  let i2 := class_fold_returns i in
   let rt := od_get (L "return_type") (ir_params i2) in        (* returns["return_type"]: same dict object *)
   do meth <- (if emit_call then
                 match ib with
@@ -1004,9 +1012,9 @@ Definition function_body_splice (internal_body : list stmt) (return_val : option
 
 (* emit.function(ir, function_name, function_type, ..., inline_types, emit_as_kwonlyargs)
    tds: outcome of to_docstring(ir, word_wrap, emit_default_doc, emit_types=not inline_types, indent_level,
-   emit_separating_tab) with the IR it left behind (the caller's object: no copy is made) *)
+   emit_separating_tab); it is handed the caller's object (no copy is made) and leaves it as it found it *)
 Definition emit_function (pt : ptable) (i : ir) (function_name function_type : option str)
-           (inline_types emit_as_kwonlyargs : bool) (tds : outcome (str * ir)) : outcome (stmt * ir) :=
+           (inline_types emit_as_kwonlyargs : bool) (tds : outcome str) : outcome (stmt * ir) :=
   let params_no_kwargs := filter no_kwargs (ir_params i) in
   do fname <- py_or function_name (ir_name i);
   do ftype <- py_or function_type (ir_type i);
@@ -1022,10 +1030,9 @@ Definition emit_function (pt : ptable) (i : ir) (function_name function_type : o
                | kv :: _ => Some (set_arg (fst kv) None)
                | [] => None
                end in
-  do r <- tds;
-  let '(text, i2) := r in
+  do text <- tds;
   do returns <- (if inline_types then
-                   match returns_param i2 with
+                   match returns_param i with
                    | Some p => match fget (g_typ p) with
                                | Some (c :: t) => do e <- parse_expr_src pt (c :: t); Ok (Some e)
                                | _ => Ok None
@@ -1040,7 +1047,7 @@ Definition emit_function (pt : ptable) (i : ir) (function_name function_type : o
   | None => Err Unmodelled            (* FunctionDef(name=None) *)
   | Some n =>
     Ok (SFunc n a (SExpr (set_value (VStr text)) :: function_body_splice internal_body return_val) [] returns,
-        i2)
+        i)
   end.
 
 (* ------------------------------------------------------------------ emit.argparse_function *)
@@ -1124,19 +1131,17 @@ Definition emit_argparse (pt : ptable) (i : ir) (emit_default_doc : bool)
              | FNone => if wrap_description then Err AttributeError else Ok VNone
              | Has d => do t <- fill_if wrap_description d; Ok (VStr t)
              end;
-  do ps <- map_outcome (fun kv => do r <- param2argparse_param pt word_wrap emit_default_doc (fst kv) (snd kv);
-                                  Ok (fst r, (fst kv, snd r))) (ir_params i);
+  do ps <- map_outcome (fun kv => param2argparse_param pt word_wrap emit_default_doc (fst kv) (snd kv)) (ir_params i);
   do spliced <- argparse_body_skip internal_body;
   do ret <- (if last_is_return internal_body then Ok [] else do r <- argparse_return pt i; Ok [r]);
-  let i2 := mkIR (ir_name i) (ir_type i) (ir_doc i) (map snd ps) (ir_returns i) (ir_internal i) in
   match fname with
   | None => Err Unmodelled
   | Some n =>
     Ok (SFunc n (mkArguments [set_arg (L "argument_parser") None] [] [] [] None None)
               (SExpr (set_value (VStr (indent tab dtext ++ tab)))
-                     :: description_assign desc :: map fst ps ++ spliced ++ ret)
+                     :: description_assign desc :: ps ++ spliced ++ ret)
               [] None,
-        i2)
+        i)
   end.
 
 (* emit.file is modelled in FS.v (integrator) *)
@@ -1186,7 +1191,7 @@ Definition ea_opt_bind {A B} (x : option A) (f : A -> option B) : option B :=
   match x with Some a => f a | None => None end.
 Local Notation "'let?' x := e1 'in' e2" := (ea_opt_bind e1 (fun x => e2)) (at level 200, x pattern, e1 at level 100, e2 at level 200).
 
-Definition dec_tds : sexp -> option (outcome (str * ir)) := dec_outcome (dec_pair dec_str dec_ir).
+Definition dec_tds : sexp -> option (outcome str) := dec_outcome dec_str.
 
 (* FAMILY: run_emitast *)
 Definition run_emitast (fn : sexp) (args : list sexp) : option sexp :=
@@ -1230,7 +1235,7 @@ Definition run_emitast (fn : sexp) (args : list sexp) : option sexp :=
     | [n; g; ww; edd; pt] =>
       let? n := dec_str n in let? g := dec_gparam g in let? ww := dec_bool ww in let? edd := dec_bool edd in
       let? pt := dec_ptable pt in
-      Some (enc_outcome enc_stmt_gparam (param2argparse_param pt ww edd n g))
+      Some (enc_outcome enc_stmt_gparam (do s <- param2argparse_param pt ww edd n g; Ok (s, g)))
     | _ => None
     end
   else if is_sym "emitast_infer" fn then
